@@ -159,12 +159,14 @@ Proof.
     pose proof (run_first ga (init h1) h2 st tr o st1 tr1 Ha) as Hf. destruct o.
     + destruct (IH _ _ _ _ H) as [gb Hb]. exists (ga + gb)%nat. now apply Hf.
     + injection H as <-. exists ga. exact Hf.
+  - (* a result transformer is transparent *)
+    destruct (IH _ _ _ _ H) as [g Hg]. exists g. cbn [init]. now rewrite run_second.
 Qed.
 
 (* ---- and produces no other ---- *)
 Theorem run_eval g : forall h st tr r, run g lc (init h) st tr = Some r -> exists f, eval f lc h st tr = Some r.
 Proof.
-  induction g as [g IHg] using lt_wf_ind. intros h. induction h as [| e | | l v | l | src dst d | l k v | l k | l | l k | a IHa b IHb | a IHa b IHb];
+  induction g as [g IHg] using lt_wf_ind. intros h. induction h as [| e | | l v | l | src dst d | l k v | l k | l | l k | a IHa b IHb | a IHa b IHb | a IHa];
     intros st tr r H.
   1-10: (destruct g as [|g]; [discriminate|]; cbn [run init step conseq] in H).
   - exists 1%nat. exact H.
@@ -217,6 +219,8 @@ Proof.
       exists (S (fa + fb)). cbn [eval]. rewrite (eval_mono _ _ _ _ _ Hfa fb).
       apply eval_mono_le with fb; [exact Hfb|lia].
     + destruct (IHa _ _ _ Ha) as [fa Hfa]. exists (S fa). cbn [eval]. now rewrite Hfa.
+  - (* HWrap *)
+    cbn [init] in H. rewrite run_second in H. destruct (IHa _ _ _ H) as [fa Hfa]. exists (S fa). exact Hfa.
 Qed.
 
 (* both directions *)
@@ -226,6 +230,12 @@ Proof. split; intros [x Hx]; [eapply run_eval|eapply eval_run]; eauto. Qed.
 
 (* and_then over a handler that produces nothing is sequencing: the modifications of its first half are
    acted on exactly as those of followed_by *)
+(* discard / Some(..) / map around a handler change nothing of what it does: every modification it reports is
+   acted on, in the same place *)
+Lemma wrap_is_transparent g a st tr :
+  run g lc (init (HWrap a)) st tr = run g lc (init a) st tr.
+Proof. cbn [init]. apply run_second. Qed.
+
 Lemma and_then_is_sequencing g a b st tr :
   run g lc (init (HThen a b)) st tr = run g lc (init (HSeq a b)) st tr.
 Proof. reflexivity. Qed.
@@ -419,6 +429,7 @@ Fixpoint modifies_below (r : nat) (h : handler) : Prop :=
   | HCopy _ dst _ => (rank (IVal dst) < r)%nat
   | HUpdM l _ _ | HRemM l _ | HClrM l => (rank (IMap l) < r)%nat
   | HSeq a b | HThen a b => modifies_below r a /\ modifies_below r b
+  | HWrap a => modifies_below r a
   | _ => True
   end.
 
@@ -446,7 +457,7 @@ Proof.
   { intros it st1 tr Hlt. unfold conseq. destruct (item_event lc st1 it) as [[c|] st2] eqn:Ei.
     - destruct (IHr _ Hlt c (item_event_below _ _ _ _ Hs Ei) st2 tr) as (f & res & Hf). now exists f, res.
     - exists O. eauto. }
-  induction h as [| e | | l v | l | src dst d | l k v | l k | l | l k | a IHa b IHb | a IHa b IHb]; intros Hb st tr.
+  induction h as [| e | | l v | l | src dst d | l k v | l k | l | l k | a IHa b IHb | a IHa b IHb | a IHa]; intros Hb st tr.
   - exists 1%nat. eexists. reflexivity.
   - exists 1%nat. eexists. reflexivity.
   - exists 1%nat. eexists. reflexivity.
@@ -465,6 +476,7 @@ Proof.
     + destruct (IHb Hb st1 tr1) as (fb & rb & Hfb). exists (S (fa + fb)), rb. cbn [eval].
       rewrite (eval_mono lc _ _ _ _ _ Hfa fb). apply (eval_mono_le lc fb); [exact Hfb|lia].
     + exists (S fa). eexists. cbn [eval]. rewrite Hfa. reflexivity.
+  - cbn [modifies_below] in Hb. destruct (IHa Hb st tr) as (fa & ra & Hfa). exists (S fa), ra. exact Hfa.
 Qed.
 
 End Termination.
